@@ -150,6 +150,7 @@ class Pre:
 
 def build(ctx, cfg):
     N = cfg["N"]
+    ctx.allow_realise = cfg.get("max_label") is not None
     with_seg = cfg.get("seg", True)
     shape = tuple(cfg.get("shape", (3, 1, 1)))
     ids = list(range(1, N + 1))
@@ -188,6 +189,8 @@ def build(ctx, cfg):
         p.seg0 = seg.c.copy()
         for x in p.seg0.flat:
             ctx.add(x >= 0)
+            if cfg.get("max_label") is not None:
+                ctx.add(x <= cfg["max_label"])  # bounded run: unmodelled numpy calls are followed by realisation
     scale_none = cfg.get("scale", "none") == "none"
     scale = None if scale_none else [1.0, 2.0, 3.0]
     tr = SolutionTracks(nx.DiGraph(), segmentation=None if seg is None else np.zeros(shape, dtype=np.int64),
